@@ -49,10 +49,10 @@ func ruleC01Coverage(c *Ctx) {
 	// pattern properties reach the evaluator through the compiled side table
 	for _, fn := range ev.Sorted() {
 		for _, fr := range c.fieldAccesses(fn) {
-			if fr.Owner == "resolvedInfo" && fr.Field.Name() == "patternProperties" {
+			if fr.Owner == "resolvedInfo" && core.CanonFieldVar(fr.Owner, fr.Field) == "patternProperties" {
 				read["PatternProperties(compiled)"] = true
 			}
-			if fr.Owner == "resolvedInfo" && fr.Field.Name() == "pattern" {
+			if fr.Owner == "resolvedInfo" && core.CanonFieldVar(fr.Owner, fr.Field) == "pattern" {
 				read["Pattern(compiled)"] = true
 			}
 		}
